@@ -15,6 +15,7 @@ from vt import h5common as h5
 PROPERTY = "C11"
 TITLE = "HDF5 write/read round trip"
 NEEDS_ICONTRACT = True
+TECHNIQUE = ("runtime monitoring: add() histories (accepted and rejected) on the real HDF5Writer against a shadow model of what must be stored, read back through every accessor form; icontract post-condition on HDF5Writer.add (also evaluated while the repository's own tests run)")
 ANCHORS = ["pyrex.io:HDF5Writer.add", "pyrex.io:HDF5Writer._write_particles", "pyrex.io:HDF5Writer._write_trigger", "pyrex.io:HDF5Writer._write_ray_data",
            "pyrex.io:HDF5Writer._write_noise_data", "pyrex.io:HDF5Writer._write_waveforms", "pyrex.io:HDF5Writer._write_indices",
            "pyrex.io:EventIterator._load_data", "pyrex.io:HDF5Reader.__len__"]
@@ -82,10 +83,23 @@ def gen_cases(tier, seed):
         cls = "all-options" if all(opts.values()) else ("trigger-only-list" if isinstance(req, list) else ("require-trigger" if req else "no-trigger-requirement"))
         nev = int(rng.integers(0, 13))
         out.append({"cls": cls, "nant": nant, "noisy": bool(rng.integers(0, 2)), "opts": opts, "req": req, "plan": h5.plan_events(rng, nev, nant), "salt": int(rng.integers(0, 2**31))})
+    out.append({"cls": "repo-suite", "files": ['tests/test_io.py', 'tests/test_kernel.py']})      # the repository's own tests as one more workload for the contract
     return out
 
 
 def run_case(case):
+    if case["cls"] == "repo-suite":
+        from vt import suite
+        v_ = V()
+        rep = suite.run("c11", case["files"])
+        evals = sum(sum(x for x in d.values() if isinstance(x, int)) for d in rep.get("contract_evaluations", {}).values())
+        v_.events += evals
+        for f_ in rep.get("contract_failures", []):
+            v_.check(False, "contract holds while the repository's own tests run", test=f_["test"], message=f_["message"])
+        sample_ = {"workload": "repository test files under the contract", "files": rep.get("files"), "tests_collected": rep.get("collected"), "contract_evaluations": evals, "pytest": rep.get("tail")}
+        if rep.get("returncode") != 0 and not rep.get("contract_failures"):
+            return v_.result(decided=False, nontrivial=False, sample=sample_, skip="repository tests did not pass under the plugin")
+        return v_.result(decided=True, nontrivial=evals >= 50, sample=sample_)
     from pyrex.io import File
     v = V()
     np.random.seed(case["salt"] % 2**32)
